@@ -703,4 +703,33 @@ theorem store_survives_redefinition {α : Type} [BNum α] (s : St α) :
     ∀ key d, lookupD (carryOver s).putN key d = lookupD s.putN key d :=
   ⟨rfl, rfl, rfl, rfl, rfl, rfl, fun _ _ => rfl⟩
 
+/-! ## several programs in one engine -/
+
+/-- running one program is running it from the empty engine state -/
+theorem compileAndRun_eq_from {α : Type} [BNum α] (hp : Bool) (fuel : Nat) (text : String) :
+    compileAndRun (α := α) hp fuel text = compileAndRunFrom ({ hp := hp } : St α) fuel text := rfl
+
+/-- **Program isolation.** What program B computes when it runs after program A in the same engine depends on A only
+through what outlives a program (`carryOver`: the PUT/PUT$ store and the three output flags): A's lines, variables,
+array dimensions, loop/GOSUB stack, DATA pointer, PUNCH/PRINT/SAVE values are invisible to B — even when both use
+the same line numbers, jump targets and variable names -/
+theorem program_isolation {α : Type} [BNum α] (sA sA' : St α) (fuel : Nat) (textB : String)
+    (hN : sA.putN = sA'.putN) (hS : sA.putS = sA'.putS) (hp : sA.hp = sA'.hp)
+    (h1 : sA.punchTab = sA'.punchTab) (h2 : sA.skipPunch = sA'.skipPunch) (h3 : sA.outNewline = sA'.outNewline) :
+    compileAndRunFrom (carryOver sA) fuel textB = compileAndRunFrom (carryOver sA') fuel textB := by
+  have : carryOver sA = carryOver sA' := by
+    simp only [carryOver, hN, hS, hp, h1, h2, h3]
+  rw [this]
+
+/-- **B after A = B alone** when A left the store empty and the output flags at rest (the state every engine starts
+from): the reference evaluation of B in a multi-program simulation is its evaluation alone -/
+theorem run_after_equals_run_alone {α : Type} [BNum α] (sA : St α) (fuel : Nat) (textB : String)
+    (hN : sA.putN = []) (hS : sA.putS = []) (h1 : sA.punchTab = true) (h2 : sA.skipPunch = false)
+    (h3 : sA.outNewline = true) :
+    compileAndRunFrom (carryOver sA) fuel textB = compileAndRun sA.hp fuel textB := by
+  have : carryOver sA = ({ hp := sA.hp } : St α) := by
+    simp only [carryOver, hN, hS, h1, h2, h3]
+  rw [this]
+  rfl
+
 end PhreeqcVerif.C17
